@@ -337,9 +337,26 @@ func (w *World) Exec(ctx boltz.MutateContext, op Op) (ExecResult, error) {
 				keyed = w.Cfgs[op.Store].Keyed
 			}
 			fc := boltz.MapFieldChecker{}
+			parent := op.Store
+			if isKid {
+				parent = w.KidCfgs[op.Store].Parent
+			}
 			for _, f := range op.Fields {
-				// the checker speaks in persisted field names
-				fc[PersistKey(keyed, f)] = struct{}{}
+				switch {
+				case keyed && w.Cfg.ClashParent(parent) && f == FExtra:
+					// the child-only field is named by its bucket key (for a Clash child that is also the key of the parent's note)
+					if isKid {
+						fc[w.KidCfgs[op.Store].ExtraKey()] = struct{}{}
+					} else {
+						fc[FExtra] = struct{}{}
+					}
+				case keyed && w.Cfg.ClashParent(parent):
+					// the parent strategy declares overrides: the checker names its fields by their symbol names
+					fc[f] = struct{}{}
+				default:
+					// the checker speaks in persisted field names
+					fc[PersistKey(keyed, f)] = struct{}{}
+				}
 			}
 			checker = fc
 		}
